@@ -1,0 +1,8 @@
+//go:build !verif
+// +build !verif
+
+package leveldbstorage
+
+import "github.com/syndtr/goleveldb/leveldb"
+
+func verifWrite(*Storage, string, []byte, *leveldb.Batch) error { return nil }
